@@ -38,9 +38,9 @@ const (
 	c07OtherRound  // flag commit, signed for round+1
 	c07FlagNilSigBlock
 	c07FlagCommitSigNil
-	c07Borrowed  // slot carries the NEXT validator's address and that validator's valid signature
-	c07OtherType // flag commit, signature over a prevote
-	c07PSHOnly   // flag commit, signed over a block id with the same hash but another part-set header
+	c07Borrowed    // slot carries the NEXT validator's address and that validator's valid signature
+	c07OtherType   // flag commit, signature over a prevote
+	c07PSHOnly     // flag commit, signed over a block id with the same hash but another part-set header
 	c07HashOnlyID  // flag commit, signed over the incomplete block id (genuine hash, zero part-set header)
 	c07PartsOnlyID // flag commit, signed over the incomplete block id (no hash, genuine part-set header)
 	c07NKinds
@@ -67,6 +67,9 @@ type c07Case struct {
 	// empty = same set.
 	TrustedKeys   []int   `json:"trusted_keys,omitempty"`
 	TrustedPowers []int64 `json:"trusted_powers,omitempty"`
+	// WireTotal != 0: the verifying sets are taken through their wire form (ToProto / ValidatorSetFromProto, as a light block or
+	// evidence arriving from a peer is) with the sender's total_voting_power field set to this value
+	WireTotal int64 `json:"wire_total_voting_power,omitempty"`
 }
 
 type c07Env struct {
@@ -237,6 +240,27 @@ func (e *c07Env) build(c c07Case) (*c07Built, error) {
 	} else {
 		b.trusted = b.vals
 	}
+	if c.WireTotal != 0 {
+		wire := func(vs *ValidatorSet) *ValidatorSet {
+			vp, err := vs.ToProto()
+			if err != nil {
+				return vs
+			}
+			vp.TotalVotingPower = c.WireTotal
+			out, err := ValidatorSetFromProto(vp)
+			if err != nil {
+				return vs
+			}
+			return out
+		}
+		same := b.trusted == b.vals
+		b.vals = wire(b.vals)
+		if same {
+			b.trusted = b.vals
+		} else {
+			b.trusted = wire(b.trusted)
+		}
+	}
 	return b, nil
 }
 
@@ -248,6 +272,15 @@ func (b *c07Built) counts(i int, pk crypto.PubKey, chain string, h int64, r int3
 	}
 	return tr.signer.Equals(pk) && tr.chain == chain && tr.height == h && tr.round == r &&
 		tr.typ == tmproto.PrecommitType && e.blocks[tr.block].Equals(blk)
+}
+
+// c07Total is the reference's own total: the sum of the members' powers (the set's cached total is part of what is under test).
+func c07Total(vs *ValidatorSet) int64 {
+	var t int64
+	for _, v := range vs.Validators {
+		t += v.VotingPower
+	}
+	return t
 }
 
 func c07Exceeds(sum *big.Int, num, den uint64, total int64) bool {
@@ -296,7 +329,7 @@ func (e *c07Env) run(r *vr.Report, c c07Case) (key, what string) {
 	}
 	plain := allValid && c.ExtraSlot == 0 && c.CommitHeight == 0 && c.CommitRound == 0 && c.CommitBlock == 0 &&
 		c.CallerHeight == 0 && c.CallerBlock == 0 && c.CallerChain == 0
-	refIdx := c07Exceeds(sumIdx, 2, 3, b.vals.TotalVotingPower())
+	refIdx := c07Exceeds(sumIdx, 2, 3, c07Total(b.vals))
 
 	errFull, p1 := c07Safe(func() error { return b.vals.VerifyCommit(chain, callerB, callerH, b.commit) })
 	errLight, p2 := c07Safe(func() error { return b.vals.VerifyCommitLight(chain, callerB, callerH, b.commit) })
@@ -304,17 +337,17 @@ func (e *c07Env) run(r *vr.Report, c c07Case) (key, what string) {
 		r.Add("panics_on_malformed_commit", 1)
 	}
 	if errFull == nil && !refIdx {
-		return "VerifyCommit:accepts-without-two-thirds", fmt.Sprintf("VerifyCommit accepted; valid for-block power %v of total %d", sumIdx, b.vals.TotalVotingPower())
+		return "VerifyCommit:accepts-without-two-thirds", fmt.Sprintf("VerifyCommit accepted; valid for-block power %v of total %d", sumIdx, c07Total(b.vals))
 	}
 	if errLight == nil && !refIdx {
-		return "VerifyCommitLight:accepts-without-two-thirds", fmt.Sprintf("VerifyCommitLight accepted; valid for-block power %v of total %d", sumIdx, b.vals.TotalVotingPower())
+		return "VerifyCommitLight:accepts-without-two-thirds", fmt.Sprintf("VerifyCommitLight accepted; valid for-block power %v of total %d", sumIdx, c07Total(b.vals))
 	}
 	if plain {
 		if (errFull == nil) != refIdx {
-			return "VerifyCommit:rejects-valid-commit", fmt.Sprintf("all-valid commit with for-block power %v of %d: VerifyCommit says %v", sumIdx, b.vals.TotalVotingPower(), errFull)
+			return "VerifyCommit:rejects-valid-commit", fmt.Sprintf("all-valid commit with for-block power %v of %d: VerifyCommit says %v", sumIdx, c07Total(b.vals), errFull)
 		}
 		if (errLight == nil) != refIdx {
-			return "VerifyCommitLight:disagrees-on-valid-commit", fmt.Sprintf("all-valid commit with for-block power %v of %d: VerifyCommitLight says %v", sumIdx, b.vals.TotalVotingPower(), errLight)
+			return "VerifyCommitLight:disagrees-on-valid-commit", fmt.Sprintf("all-valid commit with for-block power %v of %d: VerifyCommitLight says %v", sumIdx, c07Total(b.vals), errLight)
 		}
 	}
 
@@ -340,9 +373,9 @@ func (e *c07Env) run(r *vr.Report, c c07Case) (key, what string) {
 	if p3 {
 		r.Add("panics_on_malformed_commit", 1)
 	}
-	refTr := den != 0 && c07Exceeds(sumT, num, den, b.trusted.TotalVotingPower())
+	refTr := den != 0 && c07Exceeds(sumT, num, den, c07Total(b.trusted))
 	if errTr == nil && !refTr {
-		return "VerifyCommitLightTrusting:accepts-below-trust-level", fmt.Sprintf("trusting variant accepted at %d/%d; valid distinct for-block power %v of trusted total %d", num, den, sumT, b.trusted.TotalVotingPower())
+		return "VerifyCommitLightTrusting:accepts-below-trust-level", fmt.Sprintf("trusting variant accepted at %d/%d; valid distinct for-block power %v of trusted total %d", num, den, sumT, c07Total(b.trusted))
 	}
 	if plain && len(c.TrustedKeys) == 0 && num == 2 && den == 3 && (errTr == nil) != refIdx {
 		return "VerifyCommitLightTrusting:disagrees-on-valid-commit", fmt.Sprintf("all-valid commit, same set, 2/3: trusting says %v, reference %v", errTr, refIdx)
@@ -542,6 +575,19 @@ func TestVerifC07(t *testing.T) {
 						continue
 					}
 					ok = try(c07Case{Powers: pw, Kinds: ks, CommitBlock: cb, CallerBlock: clb})
+				}
+			}
+		})
+	}
+	// 2c. sets that arrived over the wire with a forged total_voting_power (the field is not covered by the validators hash)
+	for _, pw := range [][]int64{{1, 1, 1, 1}, {2, 1, 1}, {10, 10, 10, 10}} {
+		c07EachKinds(len(pw), []int{c07Absent, c07ForBlock, c07NilValid}, func(ks []int) {
+			for _, wt := range []int64{1, 2, pw[0] + 1, 1 << 40} {
+				for _, fr := range [][2]uint64{{0, 0}, {1, 3}} {
+					if !ok {
+						return
+					}
+					ok = try(c07Case{Powers: pw, Kinds: ks, WireTotal: wt, Num: fr[0], Den: fr[1]})
 				}
 			}
 		})
